@@ -142,6 +142,7 @@ type Obligation struct {
 	Cover    bool   // must NOT be unsat
 	Clause   string
 	Theories []string
+	Retried  bool
 }
 
 // ---------------------------------------------------------------- engine
@@ -262,6 +263,8 @@ type FuncCtx struct {
 	noOblig    int // >0: suppress bounds obligations (spec evaluation)
 	extraAx    []*Term
 	localsByName map[string][]types.Object
+	curArgExprs []ast.Expr
+	curRecvExpr ast.Expr
 }
 
 type calleeCtx struct {
@@ -659,6 +662,59 @@ func (fc *FuncCtx) zeroVal(t types.Type, hint string) *Term {
 		return Const("str$empty", SV)
 	}
 	return fc.freshConst("zero_"+hint, SV)
+}
+
+// ---------------------------------------------------------------- allocation
+// $alloc is the set of objects that exist; a freshly allocated object is outside it (hence distinct from every
+// object that already existed: parameters, anything read from the heap) and is then added to it.
+
+func (fc *FuncCtx) allocArr(st *State) *Term {
+	if a, ok := st.heap["$alloc"]; ok {
+		return a
+	}
+	a := Const("$alloc", ArrayOf(SV, SBool))
+	st.heap["$alloc"] = a
+	return a
+}
+
+func (fc *FuncCtx) newRef(st *State, hint string) *Term {
+	ref := fc.freshConst(hint, SV)
+	st.assume(Not(Eq(ref, Const("nil", SV))))
+	a := fc.allocArr(st)
+	st.assume(Not(Select(a, ref)))
+	na := fc.freshConst("$alloc", a.Sort)
+	st.assume(Eq(na, Store(a, ref, TTrue)))
+	st.heap["$alloc"] = na
+	return ref
+}
+
+// existing: the reference t denotes an object that already exists (or nil)
+func (fc *FuncCtx) existing(st *State, t *Term, typ types.Type) {
+	if t == nil || t.Sort.Kind != "V" || typ == nil {
+		return
+	}
+	switch types.Unalias(typ).Underlying().(type) {
+	case *types.Pointer, *types.Interface:
+		st.assume(Select(fc.allocArr(st), t))
+	}
+}
+
+// zeroElem: a canonical default element of a sort (used as the base of literal arrays; never observable)
+func (fc *FuncCtx) zeroElem(s *Sort) *Term {
+	switch s.Kind {
+	case "Int":
+		return IntLit(0)
+	case "Bool":
+		return TFalse
+	case "V":
+		return Const("nil", SV)
+	case "Slice":
+		return MkSlice(&Term{Op: "const-array", Args: []*Term{fc.zeroElem(s.Elem)}, Sort: ArrayOf(SInt, s.Elem)}, IntLit(0))
+	case "Map":
+		dom := &Term{Op: "const-array", Args: []*Term{TFalse}, Sort: ArrayOf(s.Key, SBool)}
+		return MkMap(&Term{Op: "const-array", Args: []*Term{fc.zeroElem(s.Elem)}, Sort: ArrayOf(s.Key, s.Elem)}, dom)
+	}
+	return Const("nil", SV)
 }
 
 func (fc *FuncCtx) emptyMap(s *Sort, hint string) *Term {
